@@ -19,13 +19,15 @@ ISA = dict(c10.BASE_ISA)
 ISA['general'] = dict(ISA['general'], allow_embedded_strings=True)
 ISA['macros'] = {'mac': [{'operands': {'count': 2, 'operand_sets': {'list': ['reg', 'imm']}},
                           'instructions': ['ldi @REG(0), @ARG(1)', 'brr @ARG(1)']}]}
+ISA['operand_sets'] = dict(ISA['operand_sets'], imm4={'operand_values': {'i4': {'type': 'numeric', 'argument': {'size': 4, 'byte_align': False}}}})
+ISA['instructions'] = dict(ISA['instructions'], n4={'bytecode': {'value': 0x3, 'size': 4}, 'operands': {'count': 1, 'operand_sets': {'list': ['imm4']}}})
 ISA['predefined'] = {'memory_zones': [{'name': 'zz', 'start': 0x40, 'end': 0x5F}],
                      'data': [{'name': 'blk', 'address': 0x70, 'value': 1, 'size': 2}],
                      'symbols': [{'name': 'PRE', 'value': '1'}]}
 
 BASES = {
     'code': ['start: nop', '    ldi a, 5', '.loop:', '    ldi b, val+1', '    brr .loop', '    jmp start', '    push a',
-             '    ldm [val]', '    sel foo', '    n12 3', 'val: .byte 1, 2, $1F', '    .2byte start, val'],
+             '    ldm [val]', '    sel foo', '    n12 3', '    n4 7', 'val: .byte 1, 2, $1F', '    .2byte start, val'],
     'control': ['#define SA 1', '#define SB SA', '#if SA == 1', '    .byte 1', '#elif SB', '    .byte 2', '#else', '    .byte 3', '#endif',
                 '#ifdef PRE', '    .byte SB', '#endif', '#ifndef NOPE', 'K = 4', '#endif', '    .byte K'],
     'layout': ['    .org $10', 'a1: .byte 1', '    .align 8', '    .fill 3, $55', '    .zero 2', '    .zerountil $25', '    .memzone zz',
@@ -71,15 +73,18 @@ def must_reject(lines):
             if t in ('start', 'val', '.loop', 'top', 'a1', 'z1', 'inc_lab') and not line.lstrip().startswith(t + ':') and \
                     not (k + 1 < len(toks) and toks[k + 1] == ':'):
                 out.append((f'line {i}: label reference {t} := undefined name', lines[:i] + [''.join(toks[:k] + ['undefined_q'] + toks[k + 1:])] + lines[i + 1:]))
-            if t in ('nop', 'ldi', 'brr', 'jmp', 'push', 'ldm', 'sel', 'n12', 'mac'):
+            if t in ('nop', 'ldi', 'brr', 'jmp', 'push', 'ldm', 'sel', 'n12', 'n4', 'mac'):
                 out.append((f'line {i}: mnemonic {t} := unknown word', lines[:i] + [''.join(toks[:k] + ['qqq'] + toks[k + 1:])] + lines[i + 1:]))
-        m = re.match(r'^(\s*(?:\w+:\s*)?)(ldi|push|ldm|sel|n12|brr|jmp)\s+(.*)$', line)
+        m = re.match(r'^(\s*(?:\w+:\s*)?)(ldi|push|ldm|sel|n12|n4|brr|jmp)\s+(.*)$', line)
         if m:
-            bad = {'ldi': 'a, [5]', 'push': '5', 'ldm': 'a', 'sel': 'nokey_', 'n12': '[3]', 'brr': '[[1]]', 'jmp': 'a'}[m.group(2)]
+            bad = {'ldi': 'a, [5]', 'push': '5', 'ldm': 'a', 'sel': 'nokey_', 'n12': '[3]', 'n4': '[1]', 'brr': '[[1]]', 'jmp': 'a'}[m.group(2)]
             out.append((f'line {i}: operands no variant accepts', lines[:i] + [f'{m.group(1)}{m.group(2)} {bad}'] + lines[i + 1:]))
-            big = {'ldi': 'a, 256', 'n12': '256', 'ldm': '[65536]', 'jmp': '65536', 'ldi_': ''}.get(m.group(2))
-            if big:
-                out.append((f'line {i}: value := 2^w', lines[:i] + [f'{m.group(1)}{m.group(2)} {big}'] + lines[i + 1:]))
+            # values just outside the signed-or-unsigned range of the field: 2^w, 2^w + 1, -2^(w-1) - 1, -(2^w - 1)
+            bigs = {'ldi': ['a, 256', 'a, -129', 'a, -255'], 'n12': ['256', '-129', '257'], 'n4': ['16', '-9', '-15', '17'],
+                    'ldm': ['[65536]', '[-32769]'], 'jmp': ['65536']}.get(m.group(2), [])
+            for big in bigs:
+                out.append((f'line {i}: value {big} outside its field',
+                            lines[:i] + [f'{m.group(1)}{m.group(2)} {big}'] + lines[i + 1:]))
     return out
 
 
@@ -99,7 +104,7 @@ def meta(tier):
         'rule': 'base programs (6, together using every line kind incl. includes, macros, zones, strings, conditionals) x every single '
                 'deviation: drop / duplicate / garble (5 characters) each token, drop / duplicate each line, insert a zero-length '
                 'directive at each position, and the four must-reject replacements (undefined label, unknown mnemonic, operands no '
-                'variant accepts, value 2^w); expression-length family (N in 8,16,24,32,64 tokens in every expression position); each '
+                'variant accepts, value just outside its field on either side); expression-length family (N in 8,16,24,32,64 tokens in every expression position); each '
                 'under the output configurations (no pretty print / each of 4 formats / a window) with the output file pre-seeded with '
                 'a sentinel (and, for line-level deviations, absent); thorough: every pair of line-level deviations; '
                 'non-trivial = execution that ends in a rejection, or a must-reject deviation; states: n/a',
